@@ -263,7 +263,8 @@ class Tracer:
 
     def _ev_soil_evaporation(self, a, k, ret):
         epot, th, st2, wst2, wsurf, pond, evz, es, espot = ret
-        ev = {"e": "Evaporate", "es": to_num(es), "espot": to_num(espot), "evapZ": to_num(evz)}
+        ev = {"e": "Evaporate", "es": to_num(es), "espot": to_num(espot), "evapZ": to_num(evz), "et0": to_num(a[34]),
+              "kex": to_num(a[7]), "zmin": to_num(a[4]), "zmax": to_num(a[5])}
         return self._wp(ev, th=th, pond=pond)
 
     def _ev_transpiration(self, a, k, ret):
